@@ -437,6 +437,19 @@ impl Ctx {
         self.violations.push(Violation { sig: f.sig.clone(), detail: f.detail.clone(), replay: path.to_string_lossy().to_string() });
     }
 
+    /// In an attribution run (`only` set) persist the case before it is executed, so that a
+    /// process-level failure (abort, stack overflow, stall) leaves a replay file behind.
+    pub fn pre_case<S: Serialize>(&mut self, case: &S) {
+        if let Some((_, idx)) = &self.only {
+            let dir = verif_root().join("replays").join(&self.prop);
+            let _ = std::fs::create_dir_all(&dir);
+            let path = dir.join(format!("proc-{}-{}-{}-{}.json", self.profile, self.stage, self.shard, idx));
+            let doc = json!({"property": self.prop, "stage": self.stage, "profile": self.profile,
+                "sig": "process-level failure (abort/stall), see supervisor", "case": serde_json::to_value(case).unwrap_or(Value::Null)});
+            let _ = std::fs::write(&path, serde_json::to_vec_pretty(&doc).unwrap());
+        }
+    }
+
     /// Drive a proptest strategy for `cases` cases on this shard's own stream.
     /// `oracle` gets (ctx, &case) and returns a Check. Known findings are tolerated and counted;
     /// on a genuine failure the case is shrunk *against the same signature* and recorded.
@@ -473,16 +486,7 @@ impl Ctx {
                 continue;
             }
             let case = tree.current();
-            if self.only.is_some() {
-                // attribution run: persist the case before executing it
-                let dir = verif_root().join("replays").join(&self.prop);
-                let _ = std::fs::create_dir_all(&dir);
-                let path = dir.join(format!("proc-{}-{}-{}-{}.json", self.profile, self.stage, self.shard, my_idx));
-                let doc = json!({"property": self.prop, "stage": self.stage, "profile": self.profile,
-                    "sig": "process-level failure (abort/stall), see supervisor", "case": serde_json::to_value(&case).unwrap_or(Value::Null)});
-                let _ = std::fs::write(&path, serde_json::to_vec_pretty(&doc).unwrap());
-                self.extra.insert("only_replay".into(), json!(path.to_string_lossy()));
-            }
+            self.pre_case(&case);
             self.evaluations += 1;
             let res = oracle(self, &case);
             let f = match res {
